@@ -120,6 +120,19 @@ CHECKS["C11"] = dict(
     note="Trusted: z3; RecStack/NetExecutor harness (in-order delivery). Pair counts 1..2 (thorough 1..3). Error responses outside.",
     design="3/C11")
 
+CHECKS["C12"] = dict(
+    engine="symx",
+    technique="symbolic execution of the real Executor as a coroutine: schedule = explorer choice points (all interleavings inside the bound), payloads = z3 integers, reference FIFO matcher as oracle",
+    text="11 scenarios (thorough 15) with 1-3 outstanding create/recv requests of 1-3 pairs (same/different sockets, roles mixed, keep and "
+         "measure, busy virtual qubit, sequential reuse, responses in native and qlink-1.0 form). The harness Executor yields after every "
+         "instruction and at _do_wait; at every scheduling point the explorer forks over 'advance one instruction' and 'deliver one more "
+         "response of kind k' (receive-role responses may precede recv_epr), so every interleaving is a path (4200 quick). On each path "
+         "the result arrays, qubit mapping, request queues and pending list are compared with a reference matcher; every completed wait "
+         "instruction is checked against its awaited entries.",
+    note="Exhaustive over schedules inside the bound (forking); data (create id, goodness, Bell state) symbolic. Trusted: the reference "
+         "matcher in vf/chk/c12.py; pending responses are retried before every scheduling step (models the simulators' retry loop).",
+    design="3/C12")
+
 NOT_YET = "check not built yet in this revision (work in progress; see DESIGN.md section 3 for the planned solver-based check)"
 NOT_APPLICABLE = {}
 
